@@ -37,7 +37,8 @@ RULE = (
     "just before the call; equivalent spellings of spacing / shape / region / flags (Python and numpy integers, 0-d arrays, lists, "
     "ndarrays, np.bool_, 1/0) with falsy-but-valid values (extra coordinate 0 everywhere, weights exactly 1); large-offset data with "
     "|mean| = 1e4..2e6 spreads for all three rules; calls with 130 000 / 230 000 / 262 145 points - unweighted over thousands of blocks with "
-    "singletons, weighted / uncertainty over a few hundred - with the variance convention required to be the same for the whole run) "
+    "singletons, weighted / uncertainty over a few hundred - with the variance convention required to be the same for the whole run; weights exactly 0.0 in all components on points ON the "
+    "bounding box of the cloud with the region not given (control: given), both uncertainty settings, every block keeping a positive weight) "
     "or one variance_to_weights call (2-D and 3-D variances spelled as nested lists or lists of arrays = ONE array, tuples = components; (tol as Python/numpy int or float, np.float32, 0-d "
     "array; dtype as str / type / np.dtype; bare Python and numpy scalars, all-zero variances; arrays of 1..40 variances 10^[-6,6] with zeros, 1e-300, NaNs, negatives, values "
     "at / beside tol, 1-D/2-D/0-d, tuples of 1..3 arrays, lists, Series, read-only, float32/int input, tol in {default,0,1e-3,10}, "
@@ -60,6 +61,8 @@ ASSUMPTIONS = [
     "constant blocks (single weighted members included: x*w/w may be one ulp off x) whose rounding noise 4*(n*eps*|x|)^2 can reach the "
     "absolute 1e-15 cutoff are skipped and counted, not judged",
     "the configuration of a call is the get_params() snapshot taken before the call; get_params() must be the same afterwards",
+    "a block whose weights sum to zero makes np.average raise ZeroDivisionError on the unchanged code: the workload never builds one; "
+    "members of weight exactly 0 count for the block geometry and the coordinates, not for mean, variance or sum of weights",
 ]
 FLOORS = {
     "quick": {
@@ -111,10 +114,15 @@ FLOORS = {
         "v2w_class:tol_spelled_as:np.float64": 100, "v2w_class:tol_spelled_as:ndarray0d(float64)": 100,
         "v2w_class:dtype_spelled_as:type:float32": 18, "v2w_class:dtype_spelled_as:np.dtype(float32)": 18,
         "v2w_class:dtype_spelled_as:'float32'": 14, "v2w_class:dtype_spelled_as:type:float": 15,
-        "class:more_than_100000_points": 2, "class:more_than_100000_points:rule:variance": 1,
+        "class:more_than_100000_points": 1, "class:more_than_100000_points:rule:variance": 1,
         "eval:variance_convention_consistent": 300, "blocks_judged_in_calls_with_more_than_100000_points": 1300,
         "single_member_blocks_in_calls_with_more_than_100000_points": 85, "v2w_class:list_of_rows_as_list(2-D)": 20,
         "v2w_class:list_of_rows_as_array(2-D)": 23, "v2w_class:list_of_rows_as_list(3-D)": 4, "v2w_class:container:list": 110,
+        "class:weights_exactly_0_in_all_components_on_some_points": 28,
+        "class:zero_weight_point_on_the_bounding_box:region_inferred": 20,
+        "class:zero_weight_point_on_the_bounding_box:region_given": 6,
+        "zero_weight_border_calls:points_on_the_box_with_weight_0": 110, "zero_weight_border_calls:uncertainty=True": 12,
+        "zero_weight_border_calls:uncertainty=False": 12,
     },
     "thorough": {
         "eval:blockmean_returns": 11600, "eval:blockmean_layout": 11600, "eval:labels_vs_reference_geometry": 11600,
@@ -165,12 +173,16 @@ FLOORS = {
         "v2w_class:tol_spelled_as:np.float32": 1000, "v2w_class:tol_spelled_as:np.float64": 1600,
         "v2w_class:tol_spelled_as:ndarray0d(float64)": 1600, "v2w_class:dtype_spelled_as:type:float32": 300,
         "v2w_class:dtype_spelled_as:np.dtype(float32)": 310, "v2w_class:dtype_spelled_as:'float32'": 310,
-        "v2w_class:dtype_spelled_as:type:float": 250, "class:more_than_100000_points": 11,
+        "v2w_class:dtype_spelled_as:type:float": 250, "class:more_than_100000_points": 6,
         "class:more_than_100000_points:rule:variance": 3, "eval:variance_convention_consistent": 4800,
         "blocks_judged_in_calls_with_more_than_100000_points": 36500,
         "single_member_blocks_in_calls_with_more_than_100000_points": 12500, "v2w_class:list_of_rows_as_list(2-D)": 380,
         "v2w_class:list_of_rows_as_array(2-D)": 420, "v2w_class:list_of_rows_as_list(3-D)": 120,
-        "v2w_class:container:list": 1900,
+        "v2w_class:container:list": 1900, "class:weights_exactly_0_in_all_components_on_some_points": 430,
+        "class:zero_weight_point_on_the_bounding_box:region_inferred": 320,
+        "class:zero_weight_point_on_the_bounding_box:region_given": 100,
+        "zero_weight_border_calls:points_on_the_box_with_weight_0": 1700, "zero_weight_border_calls:uncertainty=True": 210,
+        "zero_weight_border_calls:uncertainty=False": 210,
     },
 }
 JOBS = {"quick": 1, "thorough": 16}
@@ -182,8 +194,8 @@ EPS = blk.EPS
 
 def plan(tier):
     if tier == "quick":
-        return collections.OrderedDict(blockmean=105, plateau=26, series=30, reject=8, nested=6, v2w=45, v2w_nested_readonly=8, reuse=20, inplace=12, reconfigure=30, spellings=36, large_offset=18, large=2)
-    return collections.OrderedDict(blockmean=1580, plateau=390, series=450, reject=60, nested=80, v2w=680, v2w_nested_readonly=60, reuse=300, inplace=180, reconfigure=450, spellings=540, large_offset=270, large=16)
+        return collections.OrderedDict(blockmean=105, plateau=26, series=30, reject=8, nested=6, v2w=45, v2w_nested_readonly=8, reuse=20, inplace=12, reconfigure=30, spellings=36, large_offset=18, zero_weights=12, large=2)
+    return collections.OrderedDict(blockmean=1580, plateau=390, series=450, reject=60, nested=80, v2w=680, v2w_nested_readonly=60, reuse=300, inplace=180, reconfigure=450, spellings=540, large_offset=270, zero_weights=180, large=16)
 
 
 # ----------------------------------------------------------------------
@@ -263,6 +275,10 @@ def _block_statistics(d, w, members):
         sw = math.fsum(ww.tolist())
         m = math.fsum((v * ww).tolist()) / sw
         ss = math.fsum((ww * (v - m) ** 2).tolist())
+        # members with weight exactly 0 do not take part: a block whose positive-weight members are all equal has variance 0
+        live = v[ww > 0]
+        if live.size:
+            return n, m, ss, sw, float(np.max(np.abs(v))), bool(live.min() == live.max())
     return n, m, ss, sw, float(np.max(np.abs(v))), bool(v.min() == v.max())
 
 
@@ -885,6 +901,23 @@ def _reconfigured(run, rng, verde):
     return {"constructed_with": kwargs, "used_before_the_change": used, "how": how, "changed_to": changes, "rule_in_force": rule}
 
 
+def _zero_weight_border(run, rng, verde):
+    """
+    Weights given, exactly 0.0 in all components on points ON the bounding box of the cloud (westernmost / northernmost ...), region NOT
+    given (control: given), both uncertainty settings, 1-2 components: the blocks are those block_split defines for ALL given points.
+    """
+    ncomp = int(rng.choice([1, 2]))
+    east, north, kwargs, weights, on_box = blk.zero_weight_border_case(rng, ncomp, region_given=bool(rng.random() < 0.25))
+    kwargs["uncertainty"] = bool(rng.random() < 0.5)
+    kwargs["center_coordinates"] = bool(rng.random() < 0.4)
+    data = _fields(rng, east, north, ncomp)
+    run.count("zero_weight_border_calls:points_on_the_box_with_weight_0", on_box)
+    run.count("zero_weight_border_calls:uncertainty=%s" % kwargs["uncertainty"])
+    with warnings.catch_warnings():
+        warnings.simplefilter("ignore")
+        verde.BlockMean(**kwargs).filter((east, north), data[0] if ncomp == 1 else tuple(data), weights[0] if ncomp == 1 else tuple(weights))
+
+
 def _large_call(run, rng, verde, index):
     """
     More than 100 000 points in one BlockMean.filter call. Without weights: many blocks of very different populations, singletons
@@ -1018,6 +1051,9 @@ def run_case(run, tap, stream, index, rng):
 
     if stream == "large":
         _large_call(run, rng, verde, index)
+    elif stream == "zero_weights":
+        for _ in range(CALLS_PER_CASE):
+            _zero_weight_border(run, rng, verde)
     elif stream == "spellings":
         for _ in range(CALLS_PER_CASE):
             _one_call(run, rng, verde, spelled=True, layout=str(rng.choice(["1d", "1d", "2d", "series", "readonly"])), npoints=0)
